@@ -9,7 +9,7 @@
 //   {"e":"Call","n":..,"app":"sync|async","smd":b,"http":"POST","ct":"...",
 //    "bk":"obj|nonobj|malformed|empty","method":{"has":b,"v":Val},"params":{..},"id":{..},"extra":b,
 //    "mname":"m_is_m","reg":{"has":b,"sig":["i","s"],"role":"a|m|n","raw":b},
-//    "script":["R","rel","r"],                       handler program (see run_script / run_later)
+//    "script":["R","rel","r"],                       handler program (see run_script / run_later); "A" = answer unless notification()
 //    -- observed --
 //    "inv":[{"name":..,"args":[Val..]}],             invocations of registered functions with the converted parameters
 //    "ops":[{"op":"R","threw":"none|call_error|cppcms_error|bad_cast|std|other"}],   answer operations executed
@@ -539,8 +539,7 @@ static std::string run_one(Scn const &s,std::string const &prefix)
 	for(size_t i=0;i<o->ops.size();i++) { if(i) r+=","; r+="{\"op\":"+jstr(o->ops[i].first)+",\"threw\":"+jstr(o->ops[i].second)+"}"; }
 	r+="],\"st\":"+itos(o->status);
 	std::string ctype=header_value(o->headers,"Content-Type");
-	// the body: what follows the header block the response object itself wrote? no - headers go through set_response_headers,
-	// out is the body only
+	// headers arrive through set_response_headers; out is the body only
 	std::vector<std::string> docs; bool junk=false;
 	bool isjson = ctype.compare(0,16,"application/json")==0;
 	std::string text;
